@@ -406,16 +406,24 @@ def _make_fields_iterator(
         public_attribs = [
             f.name for f in dataclasses.fields(tp) if not f.name.startswith("_")
         ]
+        declared = True
     # Otherwise, try using the public type-hints.
+    #   Class variables are not fields, and neither are the parameters of the constructor.
     else:
-        attribs = inspection.get_type_hints(tp)
-        public_attribs = [k for k in attribs if not k.startswith("_")]
+        attribs = inspection.get_type_hints(tp, exhaustive=False)
+        declared = bool(attribs)
+        public_attribs = [
+            k
+            for k, hint in attribs.items()
+            if not k.startswith("_") and not inspection.isclassvartype(hint)
+        ]
     # If that didn't work, look for `__slots__`.
-    if not public_attribs and hasattr(tp, "__slots__"):
+    if not declared and hasattr(tp, "__slots__"):
+        declared = True
         public_attribs = [s for s in tp.__slots__ if not s.startswith("_")]
-    # If we located all public attributes, create a factory function for iterating over
-    #   these fields and fetching the value from an instance.
-    if public_attribs:
+    # If we located the declared attributes, create a factory function for iterating over
+    #   the public fields and fetching the value from an instance.
+    if declared:
 
         def _iterfields(val: t.Any) -> t.Iterator[tuple[str, t.Any]]:
             return ((a, getattr(val, a)) for a in public_attribs)
